@@ -309,6 +309,19 @@ def variants(a):
     return out
 
 
+_SWEPT = set()
+
+
+def first_time(*key):
+    """The dtype / layout sweep of a query concerns how the call treats its arguments, not the object's history: it is
+    done once per (model, abstract state, query) in each worker process, not at the end of every path."""
+    k = zlib.crc32(repr(key).encode())
+    if k in _SWEPT:
+        return False
+    _SWEPT.add(k)
+    return True
+
+
 def sweep(fn, args, kind0, x0, rel=False, dist8=True):
     """AnyDtypeSameValue: repeat the array query fn(*args) with every variant of every ndarray argument (one argument
     varied at a time); the outcome must be the one of the float64 call (already compared with the exact value)."""
@@ -380,6 +393,8 @@ def run_query(model, o, q):
                 r = check_elem(x[i], el, model)
                 if r:
                     return f"element {i} (d=10^{q['ks'][i]}): {r}"
+        if not first_time(model, graph.key(q["pre"]), q["ks"], q["ws"]):
+            return None
         r = sweep(lambda dd, ww: call_dB(model, o, dd, ww), [d, w], kind, x)
         if r is None and kind == "val":
             kl, xl = pure_outcome(lambda dd, ww: call_lin(model, o, dd, ww), d, w)
@@ -431,7 +446,7 @@ def run_query(model, o, q):
     raise KeyError(op)
 
 
-def rel_predicates(model, o, walls=(0,), kmin=-4, kmax=3, per_decade=4, inverse=True):
+def rel_predicates(model, o, walls=(0,), kmin=-4, kmax=3, per_decade=4, inverse=True, sweep_key=None):
     """the laws of the property as relations, evaluated numerically on a distance grid (rel).
     Returns {predicate: None | description}."""
     res = {"Monotone": None, "LinearIsDb": None, "InUnit": None, "PolicyArrayScalar": None, "InverseId": None, "QueryPure": None}
@@ -486,7 +501,7 @@ def rel_predicates(model, o, walls=(0,), kmin=-4, kmax=3, per_decade=4, inverse=
                 if not close(y, x):
                     res["PolicyArrayScalar"] = f"array element {y!r} differs from the scalar query {x!r}"
                     break
-            r = sweep(lambda dd, ww: call_dB(model, o, dd, ww), [grid, wa], kind, xa)
+            r = sweep(lambda dd, ww: call_dB(model, o, dd, ww), [grid, wa], kind, xa) if sweep_key is None or first_time(sweep_key, w) else None
             if r:
                 res["QueryPure"] = r
             kl, la = pure_outcome(lambda dd, ww: call_lin(model, o, dd, ww), grid, wa)
@@ -597,7 +612,7 @@ def run_rel(model, o, q):
                 if res.get(name):
                     return f"(rel) {name}: {res[name]}"
             return None
-        res = rel_predicates(model, o, walls=walls, inverse="InverseId" in q["req"])
+        res = rel_predicates(model, o, walls=walls, inverse="InverseId" in q["req"], sweep_key=(model, graph.key(q["pre"])))
         for name in q["req"]:
             if res.get(name):
                 return f"(rel) {name}: {res[name]}"
@@ -898,7 +913,7 @@ def run(ctx):
         for e in runs[m].emitted:
             a = e["op"] if e["kind"] == "set" else "Q" + e["op"]
             ctx.actions[a] = ctx.actions.get(a, 0) + 1
-        plan[m] = explore(ctx, m, runs[m], depth, 2000 if th else 150, 10 if th else 8, 30000 if th else 6000)
+        plan[m] = explore(ctx, m, runs[m], depth, 2000 if th else 150, 10 if th else 8, 20000 if th else 6000)
     ctx.require_actions(["Construct", "SetPol", "SetShadow", "SetSigma", "SetN", "SetFc", "SetHbs", "SetHms", "SetArea", "QPLdB", "QPL", "QPLdBArr",
                          "QWhichDistDB", "QWhichDist", "QFriis", "QRel"])
     n = 0
